@@ -151,8 +151,13 @@ func (g *Gen) concOp(c string, gi int) E {
 	case k < 22:
 		n := 1 + g.r.Intn(3)
 		docs := make([]interface{}, 0)
+		noId := g.chance(0.3) // a batch that leaves its ids to clover: every goroutine draws from the same source of ids
 		for i := 0; i < n; i++ {
-			docs = append(docs, g.doc(AStr(g.pick(g.ids))))
+			d := g.doc(AStr(g.pick(g.ids)))
+			if noId {
+				d = objWithout(d, "_id")
+			}
+			docs = append(docs, d)
 		}
 		// distinct ids inside one batch most of the time
 		return E{"op": "Insert", "c": c, "docs": docs}
@@ -302,6 +307,18 @@ func runConc(seed int64, be string, maxG, opsPer int) ([][]byte, map[string]int)
 		}
 		if G >= 3 && g.chance(0.5) {
 			progs[2][0] = E{"op": "Insert", "c": c, "docs": []interface{}{g.doc(AStr(g.pick(g.ids)))}}
+		}
+	}
+	// one source of ids for every goroutine and every handle: all goroutines insert batches that leave their ids to clover
+	if g.chance(0.2) || concFamily == "ids" {
+		for gi := 0; gi < G; gi++ {
+			for k := 0; k < len(progs[gi]) && k < 2; k++ {
+				var docs []interface{}
+				for i := 0; i < 2+g.r.Intn(3); i++ {
+					docs = append(docs, objWithout(g.doc(AStr(g.ids[0])), "_id"))
+				}
+				progs[gi][k] = E{"op": "Insert", "c": c, "docs": docs}
+			}
 		}
 	}
 	// process-wide state behind criteria: every goroutine evaluates Like criteria with patterns nobody has used
